@@ -42,6 +42,10 @@ meta = {
     "results": summary,
     "origin": "written by an independent sub-agent that was given only the property text and its own scratch worktree",
 }
+if sid in ("S128", "S129", "S130", "S150"):
+    meta["demo"]["run"] = meta["demo"]["run"].replace("go test ", "go test -tags purego ")
+if sid == "S151":
+    meta["demo"]["run"] = "GOAMD64=v3 " + meta["demo"]["run"] + " (needs a CPU with AVX2)"
 jp = os.path.join(os.path.dirname(os.path.abspath(__file__)), "seeded_judgements.json")
 if os.path.exists(jp):
     jj = json.load(open(jp))
